@@ -679,8 +679,9 @@ def main(chk: core.Check, replay: typing.Optional[str] = None) -> int:
             elif guard_silent and r['rc'] != 0 and os_ is not None:
                 stats['identical_pairs_not_building_for_other_reasons'] += 1
                 dflt = dict(facts['options'][L])
+                first_err = next((l for l in r['tail'].splitlines() if ' error: ' in l), '')
                 stats.setdefault('identical_not_building', []).append(
-                    '%s: %s' % (L, {k: v for k, v in ot_ if dflt.get(k, '<absent>') != v}))
+                    '%s: %s || %s' % (L, {k: v for k, v in ot_ if dflt.get(k, '<absent>') != v}, first_err.split(' error: ')[-1][:140]))
         else:
             if guard_silent:
                 viol = 'option sets differ but nothing rejected the build'
